@@ -107,6 +107,8 @@ void GlobalGraph::link(Graph::NodeId nodeA, Graph::NodeId nodeB, GlobalGraph::Ed
 vector<GlobalGraph::Edge> GlobalGraph::unlink(Graph::NodeId nodeA, Graph::NodeId nodeB)
 {
   // unlinking in the structure
+  nodeMustExist_(nodeA, "first node to unlink");
+  nodeMustExist_(nodeB, "second node to unlink");
   vector<GlobalGraph::Edge> deletedEdges; // what edges ID are affected by this unlinking
   deletedEdges.push_back(unlinkInNodeStructure_(nodeA, nodeB));
 
